@@ -57,7 +57,20 @@ class TypeAliasUnwrappingProvider(LocatedRequestDelegatingProvider):
         if not isinstance(norm, NormTypeAlias):
             raise CannotProvide
 
-        return norm.value[tuple(arg.source for arg in norm.args)] if norm.args else norm.value
+        if not norm.args:
+            return norm.value
+
+        args = tuple(arg.source for arg in norm.args)
+        type_params = norm.origin.__type_params__
+        value_params = getattr(norm.value, "__parameters__", ())
+        if len(type_params) != len(args) or not all(isinstance(param, TypeVar) for param in type_params):
+            return norm.value[args]
+        # subscription of the value substitutes parameters in order of their appearance inside the value,
+        # arguments of the alias follow the order of its declared type parameters
+        param_to_arg = dict(zip(type_params, args))
+        if not value_params:
+            return norm.value
+        return norm.value[tuple(param_to_arg[param] for param in value_params)]
 
 
 class ForwardRefEvaluatingProvider(LocatedRequestDelegatingProvider):
